@@ -47,6 +47,11 @@ THEOREMS = [
          "inequality StaticSide, every recorded transition of every vial in every column is one of the three and the next "
          "column is the step function (run_transition_of_range + C06.run_bounds_below_liquidus; no per-step side condition)",
          strength="full"),
+    dict(name="Snow.C01.run_trichotomy_until_first_nucleation", clause="RUN level, NOTHING monitored, any coupling and any "
+         "start temperature in the stability range: if the columns before J are ice-free (J = first column with ice), the "
+         "transition of every vial out of every column j <= J is one of the three - in particular the nucleation jumps "
+         "creating the first ice and the first solidification step after them (run_transition_of_range + "
+         "C06.run_admissible_until_first_nucleation)", strength="full"),
     dict(name="Snow.C01.run_trichotomy_uncoupled", clause="RUN level, NOTHING monitored: for thermally uncoupled vials "
          "(k_int*A = 0), any start temperature inside the stability range, every recorded transition of every vial in every "
          "column is one of the three (run_transition_of_range + C06.run_bounds_uncoupled; no per-step side condition)",
